@@ -30,7 +30,12 @@ CASE_TIMEOUT = 20
 
 CONN = {"ok": 0, "refused": 1, "timeout": 2}
 SEND = {"ok": 0, "epipe": 1, "reset": 2, "other": 3, "timeout": 4}
-RECV = {"resp": 0, "timeout": 1, "reset": 2, "eof": 3, "garbage": 4}
+RECV = {"resp": 0, "timeout": 1, "reset": 2, "eof": 3, "garbage": 4, "tls": 4}
+
+
+def in_model_domain(case):
+    """a response that cannot be decrypted (ssl.SSLError from recv) is judged by the oracle only"""
+    return not any(a["recv"][0] == "tls" for a in case["script"])
 
 
 def enc_count(c):
@@ -293,6 +298,9 @@ def signature(case, obs, msg):
     m = msg or ""
     if "is the Retry-After of a status other than 413/429/503" in m:
         return {"kind": "retry-after-honoured-for-other-status"}
+    n0 = len(obs[0]) if obs else 0
+    if ("read error" in m or "after read errors" in m) and any(a["recv"][0] == "tls" and a["send"] == "ok" for a in case["script"][:n0]):
+        return {"kind": "undecryptable-response-counted-as-other"}
     sig = {"mode": case["mode"], "msg": m[:50]}
     n = len(obs[0]) if obs else 0
     if "read error" in m or "after read errors" in m:
@@ -381,6 +389,18 @@ def cases(rng, tier):
     if tier == "quick" and len(out) > 14000:
         head = out[:200]
         out = head + rng.sample(out[200:], 13800)
+    # instead of the response something that cannot be decrypted arrives (ssl.SSLError from recv): the request may have reached the server
+    TLSERR = {"connect": "ok", "send": "ok", "recv": ["tls"]}
+    for pol in pols:
+        for mode in ("direct", "tunnelling"):
+            for method in ("GET", "POST"):
+                for seq in ([TLSERR], [TLSERR, TLSERR], [OK200, TLSERR], [TLSERR, OUTCOMES[3]]):
+                    out.append({"mode": mode, "method": method, "retries": pol, "script": [dict(a) for a in seq] + [OK200] * 4})
+    for _ in range(300 if tier == "quick" else 6000):
+        k = rng.randint(1, L + 1)
+        seq = [dict(rng.choice(OUTCOMES + [TLSERR, TLSERR])) for _ in range(k)]
+        out.append({"mode": rng.choice(["direct", "tunnelling"]), "method": rng.choice(["GET", "POST", "PUT"]),
+                    "retries": ["retry", rand_retry(rng)], "script": seq + [OK200] * 6})
     return out
 
 
